@@ -105,7 +105,7 @@ def spell_fn(R, f, plain=False):
     name = f["fn"] if plain else rcase(R, f["fn"])
     s = name + ("" if plain else R.choice(["", "", " "])) + "(" + ("" if plain else R.choice(["", " "]))
     for i, (v, u) in enumerate(f["args"]):
-        tok = (repr(float(v)) if plain else spell(R, v, allow_plus=False)) + u
+        tok = (repr(float(v)) if plain else spell(R, v, allow_plus=False)) + (u if plain else rcase(R, u))
         if i:
             if plain:
                 s += ","
